@@ -27,16 +27,81 @@ def gen_spin(rng, tier):
     return cases
 
 
+def lock_discipline(log_path, case):
+    """Oracle on the accesses to every spinlock cell of a whole-runtime log (`<fd>.lock` of the
+    descriptor table, `lk` = sleep_spinlock): the client contract the C18 theorems assume of
+    every caller - the lock is released only while it is held, exactly once per acquisition -
+    checked for the library's own clients in src/fiber_event_native.c (direct unlocks and the
+    unlock deferred to the next fiber's maintenance through manager->spinlock_to_unlock).
+    A release that finds nobody holding the lock (ticket == users) would let `ticket` run ahead
+    of `users`: the lock then reads as free while held, or as held for ever."""
+    st = {}  # cell -> [ticket, users] (mod 2^32), learnt from the first access
+    try:
+        f = open(log_path)
+    except OSError:
+        return None
+    with f:
+        for line in f:
+            p = line.split()
+            if len(p) < 6 or p[3] == "note":
+                continue
+            kind, cell = p[3], p[4]
+            base = cell.split("/")[0].split("+")[0]
+            if not (base.endswith(".lock") or base == "lk"):
+                continue
+            try:
+                if kind == "fadd" and cell == base + "+4/4":      # ticket draw: users++
+                    old = int(p[5]) % M32
+                    t = st.setdefault(base, [None, old])
+                    t[1] = (old + 1) % M32
+                elif kind == "st" and cell == base + "/4":        # release: ticket := x
+                    x = int(p[5]) % M32
+                    t = st.setdefault(base, [None, None])
+                    if t[0] is not None and x != (t[0] + 1) % M32:
+                        return "oracle lock-discipline: %s released to ticket %d, expected %d: %s" % (base, x, (t[0] + 1) % M32, line.strip())
+                    if t[1] is not None and (t[1] - x) % M32 >= (1 << 31):
+                        return "oracle lock-discipline: %s released while nobody holds it (ticket %d ahead of users %d): %s" % (base, x, t[1], line.strip())
+                    t[0] = x
+                elif kind == "ld" and cell == base + "/4":        # spin / unlock load of ticket
+                    t = st.setdefault(base, [None, None])
+                    if t[0] is None:
+                        t[0] = int(p[5]) % M32
+                elif kind == "cas" and cell == base and p[8] == "1":  # trylock took a ticket
+                    d = int(p[7]) & ((1 << 64) - 1)
+                    t = st.setdefault(base, [None, None])
+                    t[0], t[1] = d % M32, (d >> 32) % M32
+            except (ValueError, IndexError):
+                continue
+    return None
+
+
+def _event_locks_part():
+    """the library's own spinlock clients: C08's descriptor scenarios (close races, failed
+    epoll_ctl, deferred unlocks) run on the real runtime; only the lock-discipline oracle
+    decides here (what the I/O calls return is C08's business)"""
+    import specs_c08
+    src = [p for p in specs_c08.SPEC["C08"]["parts"] if p["name"] == "io"][0]
+
+    def gen(rng, tier):
+        cs = src["gen"](rng, tier)
+        close = [c for c in cs if c.get("kind") in ("close", "badfd", "dyn")]
+        rest = [c for c in cs if c.get("kind") not in ("close", "badfd", "dyn", "streambig")]
+        n = 1500 if tier == "thorough" else 150
+        return (close[: n] + rest[: n // 3])
+    return {"name": "event-locks", "harness": "io", "model": None, "runtime": True, "build": src["build"], "gen": gen,
+            "post": lock_discipline, "ok_status": ("OK", "HANG", "BUDGET", "SEGV", "DATAERR", "CRASH", "TIMEOUT", "STARVED")}
+
+
 SPEC = {
     "C18": {
-        "parts": [{"name": "spin", "harness": "spin", "model": "Spin", "gen": gen_spin}],
+        "parts": [{"name": "spin", "harness": "spin", "model": "Spin", "gen": gen_spin}, _event_locks_part()],
         "trusted_base": [
             "32-bit ticket/users counters modelled modulo 2^32 with arbitrary initial value; "
             "theorems assume fewer than 2^32 tickets outstanding at any instant "
             "(implied by fewer than 2^32 threads: Spin.boundedRun_of_threads)",
             "harness supplies fiber_manager_get() (per-thread dummy manager; only spin_count is touched)"],
         "assumptions": [
-            "unlock is only called by the holder (client contract; the model rejects anything else)",
+            "unlock is only called by the holder (client contract; the model rejects anything else; for the library's own clients in fiber_event_native.c it is checked by the lock-discipline oracle of part event-locks)",
             "weak CAS does not fail spuriously on x86-64 (cmpxchg)"],
     },
 }
